@@ -15,9 +15,9 @@ for d in $B/C*/; do
 import json,sys
 ID,P,conf,out,K=sys.argv[1:6]
 notes=open(f'/verif/seeded/{ID}/notes.md').read().splitlines()
-meta={"id":ID,"property":P,"origin":"independent sub-agent (batch 4) given only the property record and a scratch worktree of /repo",
+meta={"id":ID,"property":P,"origin":"independent sub-agent (batch "+__import__("os").environ.get("BATCH","4")+") given only the property record and a scratch worktree of /repo",
  "what_it_needs":notes[:14],
- "confirmed_by_me":{"cmd":f"tools/confirm_all.sh /tmp/mut4/{P}","result":conf,"meaning":"demo passes on the pristine tree; with the patch the whole existing suite still passes and the demo fails"},
+ "confirmed_by_me":{"cmd":f"tools/confirm_all.sh "+__import__("os").environ.get("BATCHDIR","/tmp/mut4")+f"/{P}","result":conf,"meaning":"demo passes on the pristine tree; with the patch the whole existing suite still passes and the demo fails"},
  "check_runs":out.splitlines(),"detected_by":f"python3 check.py {P}",
  "detected": ("VIOLATION" in out), "with_failing_input": ("VIOLATION" in out and "no-failing-input-found" not in out)}
 json.dump(meta,open(f'/verif/seeded/{ID}/meta.json','w'),indent=1)
